@@ -91,9 +91,9 @@ def cleanComp (s : Bytes) : Prop := NL ∉ s ∧ s.getLast? ≠ some CR ∧ s.le
 
 instance (s : Bytes) : Decidable (cleanComp s) := by unfold cleanComp; exact inferInstance
 
-def Frame.clean (f : Frame) : Prop := cleanComp f.db ∧ cleanComp f.rp ∧ cleanComp f.line
+def Frame.cleanOld (f : Frame) : Prop := cleanComp f.db ∧ cleanComp f.rp ∧ cleanComp f.line
 
-instance (f : Frame) : Decidable f.clean := by unfold Frame.clean; exact inferInstance
+instance (f : Frame) : Decidable f.cleanOld := by unfold Frame.cleanOld; exact inferInstance
 
 def Frame.comps (f : Frame) : List Bytes := [f.db, f.rp, f.line]
 
@@ -142,10 +142,10 @@ theorem frames_comps (fs : List Frame) : frames (fs.flatMap Frame.comps) false =
   | cons f fs ih => simp [Frame.comps, frames, ih]
 
 /-- **Framing round trip**: frames whose three components are clean are read back exactly. -/
-theorem readFrames_writeFrames (fs : List Frame) (h : ∀ f ∈ fs, f.clean) :
-    readFrames maxTok (writeFrames fs) = (fs, true) := by
+theorem readFramesOld_writeFrames (fs : List Frame) (h : ∀ f ∈ fs, f.cleanOld) :
+    readFramesOld maxTok (writeFrames fs) = (fs, true) := by
   have hs := splitNL_writeFrames fs (fun f hf => ⟨(h f hf).1.1, (h f hf).2.1.1, (h f hf).2.2.1⟩)
-  unfold readFrames rawLines
+  unfold readFramesOld rawLines
   rw [hs]
   simp only [List.isEmpty_nil, if_true]
   rw [scanLines_clean]
@@ -325,36 +325,6 @@ theorem batchRoundTrip_spec (zero : Int) (rec : Bool) (bs : List Batch) :
 
 end Kap.C18
 
-namespace Kap.C18
-open List
-
-/-! ## Stream: record → read -/
-
-/-- The EXTERNAL law (influxdb `models` line protocol, `strconv`): parsing the line that the writer produced for a
-point gives the point back (time truncated to the precision). Assumed for the points at hand; exercised by the
-correspondence run on every generated point. -/
-def LPLaw (F : FloatCodec) (mult : Int) (ps : List SPoint) : Prop :=
-  ∀ p ∈ ps, parseLine F mult (lineOf F mult p) = .point p.name p.tags p.fields (p.time.tdiv mult * mult)
-
-theorem parseFrames_law (F : FloatCodec) (mult : Int) (ps : List SPoint) (h : LPLaw F mult ps) :
-    parseFrames F mult (ps.map (frameOf F mult)) true =
-      (ps.map (fun p => { p with time := p.time.tdiv mult * mult }), .ok) := by
-  induction ps with
-  | nil => simp [parseFrames]
-  | cons p rest ih =>
-    have hp := h p (by simp)
-    have ih' := ih (fun x hx => h x (by simp [hx]))
-    simp [parseFrames, frameOf, hp] at ih' ⊢
-    simp [frameOf, ih']
-
-theorem readStream_record (F : FloatCodec) (mult : Int) (ps : List SPoint) (h : LPLaw F mult ps)
-    (hc : ∀ p ∈ ps, (frameOf F mult p).clean) :
-    readStream F mult (record F mult ps) = (ps.map (fun p => { p with time := p.time.tdiv mult * mult }), .ok) := by
-  unfold readStream record
-  rw [readFrames_writeFrames _ (by intro f hf; simp only [List.mem_map] at hf; obtain ⟨p, hp, rfl⟩ := hf; exact hc p hp)]
-  exact parseFrames_law F mult ps h
-
-end Kap.C18
 
 namespace Kap.C18
 open List
@@ -550,9 +520,9 @@ theorem comps_length (fs : List Frame) : (fs.flatMap Frame.comps).length = 3 * f
   | cons f r ih => rw [List.flatMap_cons, List.length_append, ih]; simp [Frame.comps]; omega
 
 /-- **Framing round trip (⇒)**: if the recording reads back as the frames that were written, every component was clean. -/
-theorem readFrames_writeFrames_inv (fs : List Frame) (h : readFrames maxTok (writeFrames fs) = (fs, true)) :
-    ∀ f ∈ fs, f.clean := by
-  unfold readFrames at h
+theorem readFramesOld_writeFrames_inv (fs : List Frame) (h : readFramesOld maxTok (writeFrames fs) = (fs, true)) :
+    ∀ f ∈ fs, f.cleanOld := by
+  unfold readFramesOld at h
   cases hs : scanLines maxTok (rawLines (writeFrames fs)) with
   | mk ls e =>
     rw [hs] at h
@@ -797,7 +767,7 @@ theorem hasNL_false (s : Bytes) (h : hasNL s = false) : NL ∉ s := by
 /-- **A line feed gets into the recorded line only from the point's own strings**: if no component of the point
 (in the sense of the finding's clause `SPoint.dirty`) has one, the line has none. -/
 theorem line_newline_free (F : FloatCodec) (mult : Int) (p : SPoint) (hF : FloatTextClean F p)
-    (hd : p.dirty = false) : NL ∉ lineOf F mult p := by
+    (hd : p.dirty = false) (hstr : p.fields.any (fun kv => kv.2.hasNL) = false) : NL ∉ lineOf F mult p := by
   intro h
   simp only [SPoint.dirty, Bool.or_eq_false_iff] at hd
   obtain ⟨⟨⟨⟨⟨⟨_, _⟩, _⟩, _⟩, hname⟩, htags⟩, hfields⟩ := hd
@@ -815,10 +785,11 @@ theorem line_newline_free (F : FloatCodec) (mult : Int) (p : SPoint) (hF : Float
       · exact absurd h (by decide)
       · obtain ⟨kv, hkv, h⟩ := nl_fieldBytes F p.fields hF h
         have := List.any_eq_false.mp hfields kv hkv
-        simp only [Bool.or_eq_true, not_or, Bool.not_eq_true] at this
+        have hs := List.any_eq_false.mp hstr kv hkv
+        simp only [Bool.not_eq_true] at this hs
         rcases h with h | h
-        · exact hasNL_false _ this.1 h
-        · rw [this.2] at h; exact Bool.noConfusion h
+        · exact hasNL_false _ this h
+        · rw [hs] at h; exact Bool.noConfusion h
   · rcases List.mem_cons.mp h with h | h
     · exact absurd h (by decide)
     · exact absurd h (nl_intDigits _)
@@ -843,9 +814,10 @@ def FitsScanner (F : FloatCodec) (mult : Int) (p : SPoint) : Prop :=
   p.db.length < maxTok ∧ p.rp.length < maxTok ∧ (lineOf F mult p).length < maxTok
 
 /-- A point to which the clause of finding `stream-newline-framing` does NOT apply has a clean frame. -/
-theorem frame_clean_of_point (F : FloatCodec) (mult : Int) (p : SPoint) (hF : FloatTextClean F p)
-    (hd : p.dirty = false) (hsz : FitsScanner F mult p) : (frameOf F mult p).clean := by
-  have hl := line_newline_free F mult p hF hd
+theorem frame_cleanOld_of_point (F : FloatCodec) (mult : Int) (p : SPoint) (hF : FloatTextClean F p)
+    (hd : p.dirty = false) (hstr : p.fields.any (fun kv => kv.2.hasNL) = false) (hsz : FitsScanner F mult p) :
+    (frameOf F mult p).cleanOld := by
+  have hl := line_newline_free F mult p hF hd hstr
   have hd' := hd
   simp only [SPoint.dirty, Bool.or_eq_false_iff] at hd'
   obtain ⟨⟨⟨⟨⟨⟨hdb, hrp⟩, hcdb⟩, hcrp⟩, _⟩, _⟩, _⟩ := hd'
